@@ -35,3 +35,10 @@ PROPS["C15"] = {
                                "sa/rules/calendar_mode.py (from the "
                                "property text)"],
 }
+
+PROPS["C01"] = {"rules": ["R09", "R10", "R11"], "explanation": "wip", "assumptions": [], "trusted": COMMON_TRUST}
+PROPS["C05"] = {"rules": ["R10", "R11"], "explanation": "wip", "assumptions": [], "trusted": COMMON_TRUST}
+PROPS["C03"] = {"rules": ["R11"], "explanation": "wip", "assumptions": [], "trusted": COMMON_TRUST}
+PROPS["C06"] = {"rules": ["R09", "R10", "R11"], "explanation": "wip", "assumptions": [], "trusted": COMMON_TRUST}
+PROPS["C09"] = {"rules": ["R10", "R11"], "explanation": "wip", "assumptions": [], "trusted": COMMON_TRUST}
+PROPS["C20"] = {"rules": ["R09", "R10"], "explanation": "wip", "assumptions": [], "trusted": COMMON_TRUST}
